@@ -13,14 +13,7 @@ from . import common
 
 LEVEL = 'other'
 EXPLANATION = (
-    'Static analysis. Soundness of a closed tableau is the textbook induction whose premises are local; each premise '
-    'is decided for every logic and rule: (R1) the verdict plumbing (folded over all flag states; PREMATURE cleared '
-    'only when no rule applies and the step limit is not hit), (R2) the trunk shape of every logic (folded '
-    'build_trunk), (R3) only the reviewed engine sites add nodes/close/tick branches, (R4) AdzHelper._apply and '
-    'Tableau.branch apply a schema faithfully (folded), (R5) every expansion rule is sound on every valuation under '
-    'the logic\'s own extracted semantics, (R6) closure rules close only unsatisfiable literal sets, (R7) witnesses are '
-    'fresh (C06), (R8) rules deriving a node from two branch nodes tie the new node\'s world to both. It does not '
-    'decide the behaviour of any particular proof run, schedules or tie-breaks.')
+    "Static analysis. Soundness of a closed tableau is the textbook induction whose premises are local; each premise is decided for every logic and rule: (R1) the verdict plumbing (folded over all flag states; PREMATURE cleared only when no rule applies and the step limit is not hit), (R2) the trunk shape of every logic (folded build_trunk), (R3) only the reviewed engine sites add nodes/close/tick branches, (R4) AdzHelper._apply and Tableau.branch apply a schema faithfully (folded), (R5) every expansion rule is sound on every valuation under the logic's own extracted semantics, (R6) closure rules close only unsatisfiable literal sets, (R7) witnesses are fresh (C06), (R8) rules deriving a node from two branch nodes tie the new node's world to both. It does not decide the behaviour of any particular proof run, schedules or tie-breaks. (R9) IdentityIndiscernability folded over mock branches with several worlds: substitutions only into same-world predicate nodes.")
 TRUSTED = ['CPython ast', 'sa.model / sa.schema / sa.tables extractors', 'sa.minieval',
            'set-of-values abstraction for quantifier/modal semantics']
 ASSUMPTIONS = ['branch receivers are named `branch`/`b`/`*.branch` as everywhere in the package (R3 is a name-convention who-may-call)',
